@@ -304,6 +304,9 @@ def dlist_groups():
                          2: ('cstl_dlist_swap', 'swap on ring neighbourhoods of 0, 1, 2 and >= 3 nodes each: first and last node re-pointed at the new head, empty rings become self-linked heads, sizes and offsets exchanged')}.items():
         G.append(Group('dlist.step2.%s' % fn[11:], ['C12'], 'S', S, 'h_step2', sources=src, defines=['-DVF_STEP2=%d' % k], unwind=6, functions=[fn],
                        what=txt, covers=['end']))
+    G.append(Group('dlist.wrap', ['C12'], 'P', S, 'h_wrap', sources=src, defines=['-DVF_G_wrap'], replace=['__cstl_dlist_insert', '__cstl_dlist_erase'],
+                   functions=['cstl_dlist_push_front', 'cstl_dlist_push_back', 'cstl_dlist_insert', 'cstl_dlist_erase', 'cstl_dlist_pop_front', 'cstl_dlist_pop_back', 'cstl_dlist_front', 'cstl_dlist_back'],
+                   what='the loop-free public wrappers hand the ring primitives exactly the right neighbour and node (element/node conversion by the list\'s offset); pop/front/back of an empty list return NULL and touch nothing; any list size'))
     for k, (h, txt, unw) in {1: ('h_b_basic', 'push/pop at both ends, insert/erase at every position, reverse, on every list of length 0..5', 16),
                              2: ('h_b_multi', 'concat/swap over all length pairs, self-concat, clear (+refill), foreach in both directions with every stop position, with and without removal of the visited element', 16),
                              3: ('h_b_sort', 'sort and find (both directions) for every assignment of keys {0,1,2} to lists of length 0..3 (thorough: 0..4): ordered, stable, permutation', 90)}.items():
